@@ -68,6 +68,12 @@ type Fakes struct {
 	// Values collects every scalar leaf a service put into an answer (taint oracle).
 	Values map[string]bool
 	Taint  bool
+	// Hook, if set, is called at the start of every RoundTrip before any lock is taken
+	// (Engine B yields to the scheduler here).
+	Hook func(url string)
+	// FaultByQuery, if set, faults every HTTP call that carries a sub-request whose query
+	// contains the returned marker (independent of arrival order).
+	FaultByQuery func(query string) *Fault
 	// FaultsApplied counts faults that actually changed an answer in this execution.
 	FaultsApplied int
 
@@ -117,6 +123,9 @@ func httpResp(code int, body []byte) *http.Response {
 }
 
 func (f *Fakes) RoundTrip(r *http.Request) (*http.Response, error) {
+	if f.Hook != nil {
+		f.Hook(r.URL.String())
+	}
 	// the gateway queries different services concurrently
 	f.mu.Lock()
 	defer f.mu.Unlock()
@@ -148,6 +157,14 @@ func (f *Fakes) RoundTrip(r *http.Request) (*http.Response, error) {
 	var fault *Fault
 	if f.FaultFor != nil {
 		fault = f.FaultFor(call, svc, len(reqs))
+	}
+	if f.FaultByQuery != nil && fault == nil {
+		for _, rq := range reqs {
+			if ft := f.FaultByQuery(rq.Query); ft != nil {
+				fault = ft
+				break
+			}
+		}
 	}
 	if fault != nil {
 		switch fault.Kind {
